@@ -971,6 +971,14 @@ def run(tier='quick', replay=None):
         else:
             cases = gen_cases(rng, tier)
         results = core.run_impl('impl_ratfun.py', [{k: v for k, v in c.items() if k not in ('factors', 'tags', 'delay')} for c in cases], timeout=3000)
+        # a worker killed by the OS (memory pressure on a shared machine) loses its whole chunk: retry those cases once
+        lost = [i for i, r in enumerate(results) if 'error' in r and r['error'].startswith('worker crashed')]
+        if lost:
+            res.count('worker_crash_retried_cases', len(lost))
+            again = core.run_impl('impl_ratfun.py', [{k: v for k, v in cases[i].items() if k not in ('factors', 'tags', 'delay')} for i in lost],
+                                  nproc=max(1, core.NCPU // 2), timeout=3000)
+            for i, r in zip(lost, again):
+                results[i] = r
         res.programs = len(ALL_METHODS)
         avail = set(re.findall(r'Definition (\w+)', texts.get('RatfunAttach.v', '')))
         counter = {}
